@@ -158,8 +158,16 @@ def option_exhaustive(ctx):
     # each isinstance branch that is not an explicit `pass` emits something
     for f in (cf, lf, llf):
         for ty, body in _branches(f.node):
-            emits = any(isinstance(n, ast.Call) and Q.callee_attr(n) in (
-                'append', 'extend') for s in body for n in ast.walk(s))
+            def _emitting(n, d=0):
+                if not isinstance(n, ast.Call):
+                    return False
+                if Q.callee_attr(n) in ('append', 'extend'):
+                    return True
+                callee = F.flow.resolve_call(n, f) if d < 2 else None
+                # a helper method of the class that does the emitting
+                return callee is not None and callee.cls is f.cls and any(
+                    _emitting(x, d + 1) for x in ast.walk(callee.node))
+            emits = any(_emitting(n) for s in body for n in ast.walk(s))
             is_pass = all(isinstance(s, ast.Pass) for s in body)
             if ty in ('static',) and f is cf:
                 continue
